@@ -38,7 +38,7 @@ LEAN_TY = {"Nat": "Nat", "Int": "Int", "Bool": "Bool", "OptNat": "Option Nat", "
            "NatList": "List Nat", "CharList": "List Char", "YMD": "PM.YMD", "NatPair": "Nat × Nat",
            "NatOptPair": "Nat × Option Nat", "OptPair": "Option (Nat × Nat)", "Unit": "Unit",
            "TokPair": "PM.Token × PM.Token", "NumRet": "Nat × PM.Ymd × PM.Res",
-           "StepRet": "List PM.Token × Nat × PM.Res × PM.Ymd × List Nat", "OptFloat": "Option Unit", "DecimalV": "PPy.DecimalV", "FoldDt": "PPy.FoldDt"}
+           "StepRet": "List PM.Token × Nat × PM.Res × PM.Ymd × List Nat", "OptFloat": "Option Unit", "IntStr": "Int", "DecimalV": "PPy.DecimalV", "FoldDt": "PPy.FoldDt"}
 PAIR_TYPES = {"NatPair": ("Nat", "Nat"), "NatOptPair": ("Nat", "OptNat"), "TokPair": ("Tok", "Tok")}
 # (methods of `parser` that are themselves translated: PARSER_METHODS below)
 
@@ -349,6 +349,7 @@ class Tr:
                 t, ty = self.E(e.args[0], pre)
                 if ty == "Ymd": return "%s.vals.length" % t, "Nat"
                 if ty in ("Tok", "Strids", "NatList", "CharList", "Toks"): return "%s.length" % t, "Nat"
+                if ty == "IntStr": return "(PPy.intStrLen %s)" % t, "Nat"
                 raise Untranslatable("len of %s" % ty)
             if n == "int" and len(e.args) == 1:
                 t, ty = self.E(e.args[0], pre)
@@ -358,16 +359,17 @@ class Tr:
                     return x, "Nat"
                 if ty == "Dec": return "(PM.Dec.toNat %s)" % t, "Nat"
                 if ty in ("Nat", "Int"): return t, ty
+                if ty == "IntStr": return t, "Int"                    # int(str(n)) = n
                 raise Untranslatable("int() of %s" % ty)
             if n == "hasattr" and len(e.args) == 2 and isinstance(e.args[1], ast.Constant) and e.args[1].value == "__len__":
                 t, ty = self.E(e.args[0], pre)
-                if ty == "Tok": return "true", "StaticBool"
+                if ty in ("Tok", "IntStr"): return "true", "StaticBool"
                 if ty in ("Dec", "Nat", "Int"): return "false", "StaticBool"
                 raise Untranslatable("hasattr(%s, '__len__')" % ty)
             if n == "str" and len(e.args) == 1:
                 t, ty = self.E(e.args[0], pre)
                 if ty not in ("Int", "Nat"): raise Untranslatable("str() of %s" % ty)
-                return "(PPy.strOfInt %s)" % self.coerce(t, ty, "Int"), "Tok"
+                return self.coerce(t, ty, "Int"), "IntStr"          # a str known to be `str(<int>)`: kept as the int
             if n == "Decimal" and len(e.args) == 1:
                 t, ty = self.E(e.args[0], pre)
                 if ty != "Tok": raise Untranslatable("Decimal(%s)" % ty)
@@ -384,6 +386,8 @@ class Tr:
                 if ta != "FoldDt" or tb != "Nat": raise Untranslatable("tz.enfold(%s, fold=%s)" % (ta, tb))
                 return "(PPy.FoldDt.enfold %s %s)" % (a, b), "FoldDt"
             recv, rt = self.E(f.value, pre)
+            if rt == "IntStr" and f.attr == "isdigit" and not e.args:
+                return "(PPy.intStrIsDigit %s)" % recv, "Bool"
             if rt == "Tok" and f.attr == "isdigit" and not e.args:
                 return "(PM.isDigitTok cls %s)" % recv, "Bool"
             if rt == "Tok" and f.attr == "lower" and not e.args:
@@ -731,7 +735,8 @@ class Tr:
             def build(pre):
                 a, ta = self.E(v.args[0], pre)
                 if ta in ("OptNat", "Int"): a, ta = self.coerce(a, ta, "Nat", pre), "Nat"
-                fn = {"Tok": "ymd_appendTok", "Dec": "ymd_appendDec", "Nat": "ymd_appendNat"}.get(ta)
+                if ta == "IntStr" and not (a.isidentifier() or a.startswith("(")): a = "(%s)" % a
+                fn = {"Tok": "ymd_appendTok", "Dec": "ymd_appendDec", "Nat": "ymd_appendNat", "IntStr": "ymd_appendIntStr"}.get(ta)
                 if fn is None: raise Untranslatable("ymd.append(%s)" % ta)
                 lab = "PM.Label.none"
                 if len(v.args) == 2:
@@ -1196,6 +1201,8 @@ PARSER_SPECS = [
     PFn("_ymd.append", "ymd_appendDec", [("val", "Dec"), ("label", "Label")], "Ymd", self_type="Ymd", ctx=[CLS],
         returns="self", inlines=YMD_PROPS),
     PFn("_ymd.append", "ymd_appendNat", [("val", "Nat"), ("label", "Label")], "Ymd", self_type="Ymd", ctx=[CLS],
+        returns="self", inlines=YMD_PROPS),
+    PFn("_ymd.append", "ymd_appendIntStr", [("val", "IntStr"), ("label", "Label")], "Ymd", self_type="Ymd", ctx=[CLS],
         returns="self", inlines=YMD_PROPS),
     PFn("_ymd._resolve_from_stridxs", "ymd_resolveFromStridxs", [("strids", "Strids")], "YMD", self_type="Ymd",
         locals_={"key": None}),
